@@ -144,4 +144,20 @@ CHECKS = {
         rule="case = one complete sequence of probe answers; states = distinct answer sequences; transitions = probes; non-trivial = every completed execution (each is judged against the expected outcome)",
         parts=[dict(pkg="./redis-shake/dbSync/slotsupervisor", harness=["slotsupervisor"], test="^TestVerif_C20$", shards=16, budget=dict(quick=60, thorough=900))],
     ),
+    "C09": dict(
+        level="model_checking",
+        engine="lockx+seqx",
+        technique="stateless model checking of the real pipe under a cooperative scheduler (every Lock/Cond.Wait is a scheduling point; iterative preemption bounding, all schedules up to the bound) plus exhaustive sequential operation words against a byte-queue reference",
+        text="pipe.go is compiled against a shim of sync (vsync) whose Lock and Cond.Wait are scheduling points owned by the explorer (lockx): for 16 "
+             "writer/reader(/closer) scenarios with chunk sizes around the capacity every schedule with at most 2 (thorough 3) preemptions is executed on the "
+             "real code. Oracle per schedule: the reader's bytes are a prefix of the accepted writes (position-coded), a Wait is entered only when full/empty "
+             "and no close is pending (checked on the private state at the moment of blocking), no deadlock or lost wake-up (a state with unfinished threads "
+             "and nobody enabled), EOF only after draining, operations that start after a close completed fail at once with the right error. Sequentially, "
+             "all words up to length 5 (7) over writes/reads of sizes {0,1,cap-1,cap,cap+1}, Buffered/Available and the four close variants are compared step "
+             "by step with a byte queue. A separate free-running -race build of the same scenario bodies looks for unsynchronised accesses.",
+        note="the scheduler is sequentially consistent and switches only at Lock/Wait/thread end (sound for data-race-free code; races are the -race pass's job); file-backed pipes (4 MiB minimum) get a reduced set in thorough only",
+        rule="execution = one schedule of one scenario (or one sequential word); states = distinct observable histories per scenario plus distinct sequential words; transitions = scheduling steps / operations; non-trivial = scenarios (each has conflicting operations by construction) and sequential words",
+        parts=[dict(pkg="./pkg/libs/io/pipe", harness=["pipe"], test="^TestVerif_C09$", race_test="^TestVerif_C09Race$", race=True, race_shards=4, shards=16,
+                    gomaxprocs=1, budget=dict(quick=60, thorough=900))],
+    ),
 }
